@@ -91,6 +91,20 @@ def gen(rng, knobs):
         if rng.random() < 0.2:
             script.insert(rng.randint(1, len(script)), ["disconnect"])
         clients.append({"script": script, "slow": rng.random() < 0.25})
+    if rng.random() < 0.06:
+        # a large stored result being streamed to a slow reader while matching events are added and removed:
+        # everything that was stored before the REQ and stays stored arrives before EOSE, once
+        n = rng.randint(110, 230)
+        pre = [h.regular(author=i % 2, kind=1, tags=[], created_at=histgen.T0 - 5000 + i) for i in range(n)]
+        victim = pre[-1 - rng.randrange(3)]
+        newer = [h.regular(author=0, kind=1, tags=[], created_at=histgen.T0 - 10 + i) for i in range(rng.randint(1, 3))]
+        dele = h.deletion(author=[k.pub for k in evgen.AUTHORS].index(victim["pubkey"]), targets=[victim["id"]],
+                          created_at=histgen.T0 - 1)
+        writes = [["send", json.dumps(["EVENT", e])] for e in newer + [dele]]
+        rng.shuffle(writes)
+        clients = [{"script": [["send", json.dumps(["REQ", "big", {"kinds": [1]}])]], "slow": rng.random() < 0.8},
+                   {"script": writes, "slow": False}]
+        limit = 4
     return {"backend": backend, "clients": clients, "preload": pre, "subscription_limit": limit,
             "p_buffered": rng.choice([0.0, 0.0, 0.3, 0.8]),
             "faults": sorted(rng.sample(range(3, 90), rng.choice([1, 2]))) if (backend == "sql" and rng.random() < 0.2) else [],
@@ -309,6 +323,13 @@ def check_client(c, world, case, ev_times, ev_done, submissions, quiet_points, v
                         and "kind" in e and not model.is_ephemeral(e["kind"])]
                 sent = {eid for seq, eid in event_by_id.get(sid, []) if fr["t_deliver"] < seq < s_eose}
                 missing = [i for i in owed if i not in sent]
+                if len(cands) == 1 and len(filters) == 1:
+                    # "exactly once": an event that was stored before the REQ cannot also be a live push
+                    cnt = collections.Counter(eid for seq, eid in event_by_id.get(sid, []) if fr["t_deliver"] < seq < s_eose)
+                    twice = [i for i in owed if cnt[i] > 1]
+                    if twice:
+                        viol.append({"cls": "stored-event-twice", "sig": "stored-event-twice|%s" % backend,
+                                     "detail": {"sub": sid, "event": twice[0][:8], "times": cnt[twice[0]], "owed": len(owed)}})
                 if any("limit" in f for f in filters):
                     missing = []
                 if not missing:
